@@ -225,6 +225,49 @@ func ruleC20_2(c *Ctx) {
 			detail = "step applied to (x,y) = (" + gx.String() + ", " + gy.String() + ")"
 		}
 		R.Check(okStep, "generate.Concat#step", c.FPos(fn), "apply(step(a,b), p) == apply(b, apply(a, p)): matrix composition in argument order", detail)
+		// the short cases are answered without the loop: no transform is the identity, one transform is itself
+		// (what SetTransform() and SetTransform(t) configure)
+		aff3T := c.Named("generate", "Aff3")
+		for _, nArgs := range []int64{0, 1} {
+			in := c.Interp()
+			h := newSimpleHooks()
+			base := sym.Atom("param:affs", types.NewSlice(aff3T))
+			h.paramPins["affs"] = &sym.Term{Op: "slice", Args: []*sym.Term{base, sym.Int(0), sym.Int(nArgs)}, T: types.NewSlice(aff3T)}
+			in.Hooks = h
+			res, _, _ := in.Run(fn, nil, nil)
+			ok := res != nil
+			detail := ""
+			for k := 0; ok && k < 6; k++ {
+				el := sym.Index(res, sym.Int(int64(k)), f32)
+				switch nArgs {
+				case 0:
+					e := poly.NewEnv()
+					p, okp := e.One(el)
+					if !okp || !p.Equal(poly.RatInt([]int64{1, 0, 0, 0, 1, 0}[k])) {
+						ok = false
+						detail = fmt.Sprintf("entry %d of Concat() is %s", k, shortKey(el))
+					}
+				case 1:
+					okEl := false
+					if el.Op == "index" && len(el.Args) == 2 {
+						if kk, isK := el.Args[1].Int64(); isK && kk == int64(k) {
+							if in0 := el.Args[0]; in0.Op == "index" && len(in0.Args) == 2 && sym.Mentions(in0.Args[0], "$param:affs") {
+								if z, isZ := in0.Args[1].Int64(); isZ && z == 0 {
+									okEl = true
+								}
+							} else if in0.Key() == "$init:deref:$param:affs[0]" {
+								okEl = true // element 0 of the parameter's backing array, read through memory
+							}
+						}
+					}
+					if !okEl {
+						ok = false
+						detail = fmt.Sprintf("entry %d of Concat(t) is %s", k, shortKey(el))
+					}
+				}
+			}
+			R.Check(ok, fmt.Sprintf("generate.Concat#%d-arguments", nArgs), c.FPos(fn), map[int64]string{0: "the identity {1,0,0,0,1,0}", 1: "the one transform given"}[nArgs], detail)
+		}
 	}
 	// normalize keyed by (n, verb)
 	if fn := c.Fn("generate", "normalize"); fn != nil {
@@ -233,85 +276,101 @@ func ruleC20_2(c *Ctx) {
 		for vb := range svgTable {
 			verbs = append(verbs, vb)
 		}
-		for _, verb := range verbs {
-			n := 2
-			if verb != '@' {
-				n = svgTable[verb].n
-			}
-			in := c.Interp()
-			h := newSimpleHooks("Concat")
-			h.paramPins["n"] = sym.Int(int64(n))
-			h.paramPins["verb"] = sym.Const(constant.MakeInt64(int64(verb)), u8t)
-			h.paramPins["transforms"] = oneElemSlice("transforms", types.NewSlice(aff3))
-			in.Hooks = h
-			_, mem, _ := in.Run(fn, nil, nil)
-			key := fmt.Sprintf("generate.normalize#n=%d,verb=%q", n, rune(verb))
-			if mem == nil {
-				R.Unknown(key, c.FPos(fn), "does not return")
-				continue
-			}
-			argT := types.NewArray(f32, 7)
-			aobj := in.ParamObj("args", argT)
-			env := poly.NewEnv()
-			for k := 0; k < 7; k++ {
-				env.Rename[fmt.Sprintf("$init:param:args[%d]", k)] = fmt.Sprintf("p%d", k)
-			}
-			var concat *sym.Term
-			for _, ev := range in.Events {
-				if ev.Kind == "opaquecall" && ev.Callee == "Concat" {
-					concat = sym.Call("Concat", nil, ev.Args...)
+		// def: no transform is configured (a Generator on which SetTransform was never called): the operands are
+		// delivered as written - the identity, by the same rule
+		for _, def := range []bool{false, true} {
+			for _, verb := range verbs {
+				n := 2
+				if verb != '@' {
+					n = svgTable[verb].n
 				}
-			}
-			if concat == nil {
-				R.Bad(key, c.FPos(fn), "the configured transforms are concatenated", "no call of Concat")
-				continue
-			}
-			for k := 0; k < 6; k++ {
-				env.Rename[sym.Index(concat, sym.Int(int64(k)), f32).Key()] = fmt.Sprintf("t%d", k)
-			}
-			rel := verb >= 'a' && verb <= 'z'
-			T := [6]poly.Rat{v("t0"), v("t1"), v("t2"), v("t3"), v("t4"), v("t5")}
-			Sc := [6]poly.Rat{v("t0"), poly.RatInt(0), poly.RatInt(0), poly.RatInt(0), v("t4"), poly.RatInt(0)}
-			M := T
-			if rel {
-				M = Sc
-			}
-			app := func(m [6]poly.Rat, x, y poly.Rat) (poly.Rat, poly.Rat) {
-				return x.Mul(m[0]).Add(y.Mul(m[1])).Add(m[2]), x.Mul(m[3]).Add(y.Mul(m[4])).Add(m[5])
-			}
-			want := make([]poly.Rat, 7)
-			for k := range want {
-				want[k] = v(fmt.Sprintf("p%d", k))
-			}
-			switch n {
-			case 7:
-				want[0], want[1] = app(Sc, v("p0"), v("p1"))
-				want[5], want[6] = app(M, v("p5"), v("p6"))
-			case 6:
-				want[4], want[5] = app(M, v("p4"), v("p5"))
-				fallthrough
-			case 4:
-				want[2], want[3] = app(M, v("p2"), v("p3"))
-				fallthrough
-			case 2:
-				want[0], want[1] = app(M, v("p0"), v("p1"))
-			case 1:
-				if verb == 'H' || verb == 'h' {
-					want[0], _ = app(M, v("p0"), poly.RatInt(0))
-				} else {
-					_, want[0] = app(M, poly.RatInt(0), v("p0"))
+				in := c.Interp()
+				h := newSimpleHooks("Concat")
+				h.paramPins["n"] = sym.Int(int64(n))
+				h.paramPins["verb"] = sym.Const(constant.MakeInt64(int64(verb)), u8t)
+				h.paramPins["transforms"] = oneElemSlice("transforms", types.NewSlice(aff3))
+				if def {
+					h.paramPins["transforms"] = &sym.Term{Op: "slice", Args: []*sym.Term{sym.Atom("param:transforms", types.NewSlice(aff3)), sym.Int(0), sym.Int(0)}, T: types.NewSlice(aff3)}
 				}
-			}
-			ok := true
-			detail := ""
-			for k := 0; k < 7; k++ {
-				got, okp := env.One(in.LoadAt(mem, aobj, sym.Path{sym.I(int64(k))}))
-				if !okp || !got.Equal(want[k]) {
-					ok = false
-					detail = fmt.Sprintf("operand %d becomes %s, want %s", k, got.String(), want[k].String())
+				in.Hooks = h
+				_, mem, _ := in.Run(fn, nil, nil)
+				key := fmt.Sprintf("generate.normalize#n=%d,verb=%q", n, rune(verb))
+				if def {
+					key += ",default"
 				}
+				if mem == nil {
+					R.Unknown(key, c.FPos(fn), "does not return")
+					continue
+				}
+				argT := types.NewArray(f32, 7)
+				aobj := in.ParamObj("args", argT)
+				env := poly.NewEnv()
+				for k := 0; k < 7; k++ {
+					env.Rename[fmt.Sprintf("$init:param:args[%d]", k)] = fmt.Sprintf("p%d", k)
+				}
+				var concat *sym.Term
+				for _, ev := range in.Events {
+					if ev.Kind == "opaquecall" && ev.Callee == "Concat" {
+						concat = sym.Call("Concat", nil, ev.Args...)
+					}
+				}
+				if concat == nil && !def {
+					R.Bad(key, c.FPos(fn), "the configured transforms are concatenated", "no call of Concat")
+					continue
+				}
+				if concat != nil {
+					for k := 0; k < 6; k++ {
+						env.Rename[sym.Index(concat, sym.Int(int64(k)), f32).Key()] = fmt.Sprintf("t%d", k)
+					}
+				}
+				rel := verb >= 'a' && verb <= 'z'
+				T := [6]poly.Rat{v("t0"), v("t1"), v("t2"), v("t3"), v("t4"), v("t5")}
+				Sc := [6]poly.Rat{v("t0"), poly.RatInt(0), poly.RatInt(0), poly.RatInt(0), v("t4"), poly.RatInt(0)}
+				if def {
+					T = [6]poly.Rat{poly.RatInt(1), poly.RatInt(0), poly.RatInt(0), poly.RatInt(0), poly.RatInt(1), poly.RatInt(0)}
+					Sc = T
+				}
+				M := T
+				if rel {
+					M = Sc
+				}
+				app := func(m [6]poly.Rat, x, y poly.Rat) (poly.Rat, poly.Rat) {
+					return x.Mul(m[0]).Add(y.Mul(m[1])).Add(m[2]), x.Mul(m[3]).Add(y.Mul(m[4])).Add(m[5])
+				}
+				want := make([]poly.Rat, 7)
+				for k := range want {
+					want[k] = v(fmt.Sprintf("p%d", k))
+				}
+				switch n {
+				case 7:
+					want[0], want[1] = app(Sc, v("p0"), v("p1"))
+					want[5], want[6] = app(M, v("p5"), v("p6"))
+				case 6:
+					want[4], want[5] = app(M, v("p4"), v("p5"))
+					fallthrough
+				case 4:
+					want[2], want[3] = app(M, v("p2"), v("p3"))
+					fallthrough
+				case 2:
+					want[0], want[1] = app(M, v("p0"), v("p1"))
+				case 1:
+					if verb == 'H' || verb == 'h' {
+						want[0], _ = app(M, v("p0"), poly.RatInt(0))
+					} else {
+						_, want[0] = app(M, poly.RatInt(0), v("p0"))
+					}
+				}
+				ok := true
+				detail := ""
+				for k := 0; k < 7; k++ {
+					got, okp := env.One(in.LoadAt(mem, aobj, sym.Path{sym.I(int64(k))}))
+					if !okp || !got.Equal(want[k]) {
+						ok = false
+						detail = fmt.Sprintf("operand %d becomes %s, want %s", k, got.String(), want[k].String())
+					}
+				}
+				R.Check(ok, key, c.FPos(fn), map[bool]string{true: "relative: linear part only", false: "absolute: full transform"}[rel], detail)
 			}
-			R.Check(ok, key, c.FPos(fn), map[bool]string{true: "relative: linear part only", false: "absolute: full transform"}[rel], detail)
 		}
 	}
 	// converter normalize: relative => a*out/size; absolute => a*out/size - out/2 - offset[axis]
